@@ -25,6 +25,11 @@ Engine E2 (mc.inputs): bounded exhaustive enumeration of inputs x configurations
   part reverse_iter_lines-block-edges  directed: files a little larger than twice jsonutils.DEFAULT_BLOCKSIZE made of a
                          repeated pattern (CRLF, 2/3/4-byte characters, empty lines), shifted so that every byte of the
                          pattern falls on a block edge, read with the default block, the constant, +-1 and x2.
+  part reverse_iter_lines-large-files  directed ("whatever the file size"): files of exactly 2**k - 1, 2**k, 2**k + 1
+                         bytes (k = 16, 20, 22; thorough also 18, 24) and around every integer constant of
+                         boltons.jsonutils that looks like a size threshold; numbered lines with mixed \\r\\n / \\n
+                         breaks, empty lines and multi-byte characters (with / without a final break) and one line that
+                         fills the file; default block, 65537, file size + 1 x five kinds of file object x preseek.
   part reverse_iter_lines-encodings  text-mode files in latin-1, cp1252 and utf-8-sig and binary objects passed with an
                          explicit encoding=, every content <= 3 tokens x every blocksize x preseek; plus JSONLIterator
                          forward / reverse over such text-mode files.
@@ -32,6 +37,8 @@ Engine E2 (mc.inputs): bounded exhaustive enumeration of inputs x configurations
                          lowest and the highest code point encoded with it (so every lead byte and the extreme
                          continuation bytes 0x80 / 0xBF occur) x 8 content templates that put the character at the
                          start / end of the file and of a line x every blocksize x file kind x preseek; same oracle.
+                         The same templates with the characters \\v \\f \\x1c-\\x1e \\x85 U+2028 U+2029, which
+                         str.splitlines() breaks at and this function must not.
   part jsonl             every file of <= K lines over a 7-line menu (objects, blank lines, a corrupt line, a
                          5000-byte object) x trailing newline x eol x {text file, binary file, BytesIO} x
                          ignore_errors x {forward, reverse with the native 4096-byte block, reverse with the block
@@ -46,6 +53,12 @@ Engine E2 (mc.inputs): bounded exhaustive enumeration of inputs x configurations
                          valid), tab-only blank lines and a line nested deeper than json.loads accepts, in 4 file layouts
                          x eol x file kind x ignore_errors x direction, driven with next(it) and with iter(it).next().
                          Oracle: the stdlib json.loads decides which lines are records.
+                         Also: records holding \\x85, U+2028, U+2029 (valid raw inside a JSON string) or \\v \\f
+                         \\x1c-\\x1e in the middle of the line - one line in both directions - additionally over a
+                         TextIOWrapper(BytesIO).
+  part jsonl-large-files  directed: JSON Lines files of exactly 2**k (+-1) bytes (as above) with blank and corrupt lines
+                         interspersed, mixed eol, a raw U+2028 in every record; four file kinds x ignore_errors x
+                         {forward, reverse native, reverse with one block for the whole file}.
 
 Real files live in a scratch directory under /dev/shm which is removed at the end of the run.
 """
@@ -526,6 +539,8 @@ def check_rev_content(jsonutils, content, path, modes, t, blocksizes=None, part=
                 case = {'part': part, 'content': content, 'mode': mode, 'blocksize': bs, 'preseek': preseek}
                 if part == 'reverse_iter_lines-block-edges':
                     case.update(content=None, **edge_case(content))
+                elif part == 'reverse_iter_lines-large-files':
+                    case.update(content=None, **_LARGE_CURRENT)
                 t.count(nontrivial=has_break, sample=case if has_break and bs and 1 < bs < len(data) else None)
                 obs = call_reverse(jsonutils, mode, data, path, bs, preseek)
                 if obs[0] == 'ok' and obs[1] in accept:
@@ -788,6 +803,9 @@ def _lead_extremes(lead):
 
 
 MB_LEADS = tuple(range(0xC2, 0xF5))
+# characters that str.splitlines() / \s-style patterns break at, but that do not separate the "\n- or \r\n-separated
+# lines" of the statement (a lone \r stays outside the domain); explored with the same templates
+REV_LOOKALIKES = ('\x0b', '\x0c', '\x1c', '\x1d', '\x1e', '\x85', '\u2028', '\u2029')
 
 
 def mb_shard(arg):
@@ -795,13 +813,14 @@ def mb_shard(arg):
     scratch, lead, modes = arg
     t = inputs.Tally()
     path = os.path.join(scratch, 'mb-%d.dat' % os.getpid())
-    for ch in _lead_extremes(lead):
+    chars = REV_LOOKALIKES if lead == 'lookalikes' else _lead_extremes(lead)
+    for ch in chars:
         for tpl in MB_TEMPLATES:
             if saw_hang():
                 t.add('cut_short_after_hang')
                 return t
             check_rev_content(jsonutils, tpl.replace('X', ch), path, modes, t)
-    t.add('characters', len(_lead_extremes(lead)))
+    t.add('characters', len(chars))
     return t
 
 
@@ -857,10 +876,13 @@ def open_jsonl(kind, data, path):
     if kind.startswith('file-text:'):
         f = open(path, 'r', encoding=kind.split(':', 1)[1])
         return f, f.buffer.raw.close
+    if kind == 'textio-bytesio':
+        b = io.BytesIO(data)
+        return io.TextIOWrapper(b, encoding='utf-8'), b.close
     raise AssertionError(kind)
 
 
-def run_jsonl(jsonutils, kind, data, path, ignore_errors, reverse, blocksize, protocol='__next__'):
+def run_jsonl(jsonutils, kind, data, path, ignore_errors, reverse, blocksize, protocol='__next__', limit=None):
     """Drive a JSONLIterator to its end (or first exception).  blocksize None = native; otherwise the module-global
     reverse_iter_lines is wrapped so that the iterator's internal 4096 is replaced by the scaled value.
     protocol '__next__': next(it);  'next': the documented method iter(it).next()."""
@@ -871,13 +893,14 @@ def run_jsonl(jsonutils, kind, data, path, ignore_errors, reverse, blocksize, pr
             return _orig(file_obj, blocksize=_bs, preseek=preseek, **kw)
         jsonutils.reverse_iter_lines = scaled
     out = []
+    limit = ITEM_LIMIT if limit is None else limit
     try:
         try:
             with deadline():
                 it = jsonutils.JSONLIterator(f, ignore_errors=ignore_errors, reverse=reverse)
                 if protocol == 'next':
                     it = iter(it)
-                for _ in range(ITEM_LIMIT):
+                for _ in range(limit):
                     try:
                         out.append(it.next() if protocol == 'next' else next(it))
                     except StopIteration:
@@ -886,7 +909,7 @@ def run_jsonl(jsonutils, kind, data, path, ignore_errors, reverse, blocksize, pr
                         out.append('<ValueError>')
                         break
                 else:
-                    return ('hang', 'more than %d items' % ITEM_LIMIT)
+                    return ('hang', 'more than %d items' % limit)
         except Hang:
             return ('hang', 'no result')
         except Exception as e:
@@ -1088,6 +1111,179 @@ def gap_shards(scratch, quick):
 
 
 # ---------------------------------------------------------------------------------------------------------------
+# part 2e / 3d: large files ("whatever the file size").  Directed: file sizes of exactly 2**k - 1, 2**k, 2**k + 1 bytes
+# and around every integer constant of the module under test that looks like a size threshold (found by introspection).
+# On-disk files, unbuffered ones and in-memory objects; mixed \r\n / \n breaks, empty lines, 2- and 3-byte characters.
+
+LARGE_POWERS_QUICK = (16, 20, 22)
+LARGE_POWERS_THOROUGH = (16, 18, 20, 22, 24)
+LARGE_LONG_LINE_MAX = 2 ** 20           # the one-long-line variant costs (size / blocksize)**2 / 2 block copies
+_LARGE_CURRENT = {}
+
+
+def module_size_constants(jsonutils):
+    """Integer module constants between 16 KiB and 8 MiB: candidates for 'files at least this big are read otherwise'."""
+    out = set()
+    for name, v in sorted(vars(jsonutils).items()):
+        if type(v) is int and not name.startswith('__') and 2 ** 14 <= v <= 2 ** 23:
+            out.add(v)
+    return sorted(out)
+
+
+def large_sizes(jsonutils, quick):
+    """-> sorted list of (nbytes, variant)."""
+    out = set()
+    centres = [2 ** k for k in (LARGE_POWERS_QUICK if quick else LARGE_POWERS_THOROUGH)] + module_size_constants(jsonutils)
+    for c in centres:
+        out |= {(c - 1, 'head'), (c, 'tail'), (c, 'head'), (c + 1, 'tail')}
+        if c <= LARGE_LONG_LINE_MAX:
+            out.add((c, 'long'))
+    return sorted(out)
+
+
+def large_content(nbytes, variant):
+    """A text of exactly nbytes UTF-8 bytes.  'head' / 'tail': numbered lines of 7..260 bytes, every 11th empty, ended by
+    \r\n (every third) or \n, brought to the exact size with a run of 'b' at the start (the text then ends with a line
+    break) or at the end (it does not).  'long': a one-character line, one line that fills the file, a final \r\n."""
+    if variant == 'long':
+        k = (nbytes - 5) // 2
+        return 'a\r\n' + '\u00e9' * k + 'b' * ((nbytes - 5) % 2) + '\r\n'
+    pieces, total, i = [], 0, 0
+    while True:
+        line = '' if i % 11 == 10 else '%06d caf\u00e9 \u20ac %s' % (i, 'x' * (i * 37 % 240))
+        piece = line + ('\r\n' if i % 3 == 0 else '\n')
+        size = len(piece) + (3 if line else 0)          # e-acute: 2 bytes, the euro sign: 3
+        if total + size > nbytes:
+            break
+        pieces.append(piece)
+        total += size
+        i += 1
+    pad = 'b' * (nbytes - total)
+    text = pad + ''.join(pieces) if variant == 'head' else ''.join(pieces) + pad
+    return text
+
+
+def large_blocksizes(nbytes):
+    return (None, 2 ** 16 + 1, nbytes + 1)
+
+
+def large_shard(arg):
+    from boltons import jsonutils
+    scratch, nbytes, variant, modes = arg
+    t = inputs.Tally()
+    if saw_hang():
+        t.add('cut_short_after_hang')
+        return t
+    path = os.path.join(scratch, 'large-%d.dat' % os.getpid())
+    content = large_content(nbytes, variant)
+    if len(content.encode('utf-8')) != nbytes:
+        raise AssertionError('harness: large_content(%d, %r) has another size' % (nbytes, variant))
+    _LARGE_CURRENT.clear()
+    _LARGE_CURRENT.update(nbytes=nbytes, variant=variant)
+    check_rev_content(jsonutils, content, path, modes, t,
+                      blocksizes=(None,) if variant == 'long' else large_blocksizes(nbytes),
+                      part='reverse_iter_lines-large-files')
+    try:
+        os.unlink(path)
+    except OSError:
+        pass
+    return t
+
+
+BIG_JSONL_KINDS = ('file-text', 'file-rb', 'bytesio', 'textio-bytesio')
+
+
+def big_jsonl_sizes(jsonutils, quick):
+    out = set()
+    for p in (LARGE_POWERS_QUICK if quick else LARGE_POWERS_THOROUGH):
+        out |= ({2 ** p - 1, 2 ** p, 2 ** p + 1} if p == 20 or not quick else {2 ** p + 1})
+    for c in module_size_constants(jsonutils):
+        out |= {c - 1, c, c + 1}
+    return sorted(out)
+
+
+def big_jsonl_file(nbytes):
+    """-> (lines, data): records of 30..450 bytes numbered from 0 (with a 2-byte character and a raw U+2028 inside a
+    string), every 7th line blank, every 13th corrupt, ended by \r\n (every fifth) or \n; a first line of spaces brings
+    the file to exactly nbytes bytes."""
+    lines, eols, total, i = [], [], 0, 0
+    while True:
+        if i % 7 == 6:
+            line = ''
+        elif i % 13 == 12:
+            line = '{"id": %d, corrupt' % i
+        else:
+            line = json.dumps({'id': i, 's': 'caf\u00e9 \u2028 ' + 'x' * (i * 53 % 420)}, ensure_ascii=False)
+        eol = '\r\n' if i % 5 == 0 else '\n'
+        size = len((line + eol).encode('utf-8'))
+        if total + size > nbytes:
+            break
+        lines.append(line)
+        eols.append(eol)
+        total += size
+        i += 1
+    pad = nbytes - total
+    if pad:
+        lines.insert(0, ' ' * (pad - 1))
+        eols.insert(0, '\n')
+    data = ''.join(l + e for l, e in zip(lines, eols)).encode('utf-8')
+    return tuple(lines), data
+
+
+def run_big_jsonl_case(jsonutils, case, lines, data, path, exp=None):
+    if exp is None:
+        exp = jsonl_expected(lines, case['ignore_errors'], case['reverse'])
+    bs = case['blocksize']
+    obs = run_jsonl(jsonutils, case['kind'], data, path, case['ignore_errors'], case['reverse'],
+                    len(data) + 1 if bs == 'file size + 1' else bs, limit=len(lines) + 2)
+    if obs == ('ok', exp):
+        return None, exp, obs
+    return ('C19|cls:JSONLIterator|%s|%s' % ('reverse' if case['reverse'] else 'forward', gap_what(obs)), exp, obs)
+
+
+def big_short(events):
+    """Keep violation records small."""
+    if isinstance(events, (list, tuple)) and len(events) > 6:
+        return ['<%d items>' % len(events), 'first', jsonl_short(list(events[:2])), 'last', jsonl_short(list(events[-2:]))]
+    return jsonl_short(list(events)) if isinstance(events, (list, tuple)) else events
+
+
+def big_jsonl_shard(arg):
+    from boltons import jsonutils
+    scratch, nbytes = arg
+    t = inputs.Tally()
+    path = os.path.join(scratch, 'bigjsonl-%d.dat' % os.getpid())
+    lines, data = big_jsonl_file(nbytes)
+    if len(data) != nbytes:
+        raise AssertionError('harness: big_jsonl_file(%d) has another size' % nbytes)
+    with open(path, 'wb') as f:
+        f.write(data)
+    exps = {(ie, rev): jsonl_expected(lines, ie, rev) for ie in (True, False) for rev in (False, True)}
+    for kind in BIG_JSONL_KINDS:
+        for ignore_errors in (True, False):
+            for reverse, bs in ((False, None), (True, None), (True, 'file size + 1')):
+                if saw_hang():
+                    t.add('cut_short_after_hang')
+                    return t
+                case = {'part': 'jsonl-large-files', 'nbytes': nbytes, 'kind': kind, 'ignore_errors': ignore_errors,
+                        'reverse': reverse, 'blocksize': bs}
+                t.count(nontrivial=True, sample=case if reverse else None)
+                sig, exp, obs = run_big_jsonl_case(jsonutils, case, lines, data, path, exps[ignore_errors, reverse])
+                if sig is None:
+                    continue
+                t.bad(sig, case, big_short(exp), [obs[0]] + [big_short(x) for x in obs[1:]],
+                      tags=[kind, 'ignore_errors' if ignore_errors else 'strict', 'large_file'])
+                if obs[0] == 'hang':
+                    saw_hang(t)
+                    return t
+    try:
+        os.unlink(path)
+    except OSError:
+        pass
+    return t
+
+
+# ---------------------------------------------------------------------------------------------------------------
 # part 3c: the forms of a corrupt ("undecodable") line.  A catalogue generated from JSON values x textual damages; whether
 # a catalogue line is decodable is decided by the stdlib's json.loads (the function the class documents), so damages that
 # happen to produce valid JSON ('1' + '1', a padded value) are simply records.
@@ -1113,6 +1309,14 @@ FORM_DAMAGES = (            # name, function of the value text
     ('tab-padded', lambda v: '\t' + v + '\t'),
     ('single-quoted', lambda v: v.replace('"', "'") if '"' in v else "'" + v + "'"),
 )
+# Characters at which str.splitlines() (or a \s / \v-style pattern) breaks but which are NOT line breaks of a JSON Lines
+# file (those are \n and \r\n): a record holding one of them - json.dumps(ensure_ascii=False) leaves U+0085, U+2028
+# and U+2029 raw inside strings - is one line in forward mode and must be one line in reverse mode.  (The raw C0
+# controls make the line undecodable for json.loads, in both directions alike.)  The character never stands at the
+# start or the end of a line, so that what str.strip() takes for blank does not matter.
+LOOKALIKES = ('\x85', '\u2028', '\u2029', '\x0b', '\x0c', '\x1c', '\x1d', '\x1e')
+LOOKALIKE_TEMPLATES = ('["aXb"]', '{"X": "X"}', '[1,X2]', '["\u00e9XX\u00e9", "X "]')
+LOOKALIKE_KINDS = ('file-text', 'file-rb', 'bytesio', 'textio-bytesio')
 FORM_OBJ = '{"1": 1}'
 FORM_LAYOUTS = (('C',), ('O', 'C', 'O'), ('C', 'O'), ('', 'C', 'C'))       # C = the catalogue line, O = FORM_OBJ
 FORM_EOLS = ('\n', '\r\n')
@@ -1146,6 +1350,9 @@ def form_lines():
             if line.strip() and line not in seen:
                 seen.add(line)
                 out.append((dname, line))
+    for ch in LOOKALIKES:
+        for tpl in LOOKALIKE_TEMPLATES:
+            out.append(('lookalike-break', tpl.replace('X', ch)))
     return out
 
 
@@ -1201,10 +1408,10 @@ def form_shard(arg):
     if which == nshards - 1 and deep_line() is not None:
         todo.append(('too-deep', DEEP_NAME, True))
     for dname, line, deep in todo:
-        undecodable = deep or not line.strip() or not form_decodable(line)
+        undecodable = deep or not line.strip() or not form_decodable(line) or dname == 'lookalike-break'
         for li, layout in enumerate(FORM_LAYOUTS):
             for eol in FORM_EOLS:
-                for kind in JSONL_KINDS:
+                for kind in (LOOKALIKE_KINDS if dname == 'lookalike-break' else JSONL_KINDS):
                     for ignore_errors in ((True,) if deep else (False, True)):
                         for reverse, bs in ((False, None), (True, None), (True, 3)):
                             if deep and bs == 3:
@@ -1279,6 +1486,13 @@ def run(ctx):
             part='reverse_iter_lines-block-edges', rule='every content holds thousands of line breaks')
         ctx.coverage['parts']['reverse_iter_lines-block-edges']['directed'] = (
             'file sizes just above twice the default block size only')
+        from boltons import jsonutils as _ju
+        HANG_FLAG = os.path.join(scratch, 'HANG-2e')
+        t2e = inputs.run_shards(
+            ctx, large_shard, [(scratch, n, v, REV_MODES) for n, v in large_sizes(_ju, ctx.quick())],
+            part='reverse_iter_lines-large-files', rule='every content holds hundreds of line breaks')
+        ctx.coverage['parts']['reverse_iter_lines-large-files']['directed'] = (
+            'the file sizes are a sample (2**k - 1, 2**k, 2**k + 1 and around integer constants of the module)')
         HANG_FLAG = os.path.join(scratch, 'HANG-2d')
         t2d = inputs.run_shards(
             ctx, enc_shard, enc_shards(scratch, b['enc_maxtok'], b['enc_jsonl_maxlines']),
@@ -1286,7 +1500,8 @@ def run(ctx):
             rule='the text has a line break and a character >= U+0080 / the JSONL file has a character >= U+0080')
         HANG_FLAG = os.path.join(scratch, 'HANG-2b')
         t2b = inputs.run_shards(
-            ctx, mb_shard, [(scratch, lead, REV_MODES) for lead in MB_LEADS], part='reverse_iter_lines-multibyte',
+            ctx, mb_shard, [(scratch, lead, REV_MODES) for lead in MB_LEADS + ('lookalikes',)],
+            part='reverse_iter_lines-multibyte',
             rule='content contains at least one \\n or \\r\\n; every content holds a multi-byte character')
         HANG_FLAG = os.path.join(scratch, 'HANG-3')
         t3 = inputs.run_shards(
@@ -1303,7 +1518,13 @@ def run(ctx):
         HANG_FLAG = os.path.join(scratch, 'HANG-3c')
         t3c = inputs.run_shards(
             ctx, form_shard, [(scratch, k, FORM_SHARDS) for k in range(FORM_SHARDS)], part='jsonl-corrupt-forms',
-            rule='the catalogue line is blank or undecodable for the stdlib json.loads')
+            rule='the catalogue line is blank or undecodable for the stdlib json.loads, or holds a character that '
+                 'str.splitlines() breaks at and a JSON Lines file does not')
+        HANG_FLAG = os.path.join(scratch, 'HANG-3d')
+        t3d = inputs.run_shards(
+            ctx, big_jsonl_shard, [(scratch, n) for n in big_jsonl_sizes(_ju, ctx.quick())], part='jsonl-large-files',
+            rule='every file has hundreds of records with blank and corrupt lines interspersed')
+        ctx.coverage['parts']['jsonl-large-files']['directed'] = 'the file sizes are a sample'
         left = sorted(os.listdir(scratch))
     finally:
         HANG_FLAG = None
@@ -1314,7 +1535,7 @@ def run(ctx):
     ctx.coverage['rule'] = ('non-trivial = the input contains a line break (iter_splitlines, reverse_iter_lines) / '
                             'the JSONL file has >= 2 lines with a blank or corrupt one; every counted case is a '
                             'distinct (input, configuration) tuple by construction')
-    cut = sum(t.extra.get('cut_short_after_hang', 0) + t.extra.get('hangs', 0) for t in (t1, t1b, t2, t2s, t2c, t2d, t2b, t3, t3b, t3c))
+    cut = sum(t.extra.get('cut_short_after_hang', 0) + t.extra.get('hangs', 0) for t in (t1, t1b, t2, t2s, t2c, t2e, t2d, t2b, t3, t3b, t3c, t3d))
     ctx.coverage['exhaustive'] = not cut
     if cut:
         ctx.note('a call into the code under test did not terminate within %d CPU-seconds: the remaining shards were '
@@ -1347,6 +1568,8 @@ def run(ctx):
             'preseek': [True, 'False (not for the partly read file): the cursor is at the end after the writes']},
         'jsonl-corrupt-forms': {
             'values': list(FORM_VALUES), 'blank_forms': list(FORM_BLANKS), 'damages': [d[0] for d in FORM_DAMAGES] + ['too-deep (ignore_errors only)'],
+            'lookalike_breaks': {'characters': list(LOOKALIKES), 'templates (X = the character)':
+                                 list(LOOKALIKE_TEMPLATES), 'kinds': list(LOOKALIKE_KINDS)},
             'catalogue_lines': len(form_lines()), 'layouts (C = catalogue line, O = an object)':
                 [list(l) for l in FORM_LAYOUTS], 'eol': list(FORM_EOLS), 'kinds': list(JSONL_KINDS),
             'ignore_errors': [False, True], 'directions': 'forward; reverse with block 4096 and 3',
@@ -1355,6 +1578,20 @@ def run(ctx):
             'content': 'pattern * (2 * DEFAULT_BLOCKSIZE // len(pattern) + 3) + "b" * shift, shift 0..len(pattern)',
             'patterns': list(EDGE_PATTERNS), 'blocksizes': 'default, DEFAULT_BLOCKSIZE (read from the module), -1, +1, x2',
             'modes': list(REV_MODES + REV_STATE_MODES), 'exhaustive_in_size': False},
+        'reverse_iter_lines-large-files': {
+            'sizes_and_variants': [list(x) for x in large_sizes(_ju, ctx.quick())],
+            'module_constants_taken_for_thresholds': module_size_constants(_ju),
+            'variants': {'head': 'numbered lines, mixed CRLF / LF, empty lines, multi-byte characters; ends with a '
+                                 'line break', 'tail': 'the same, no final line break',
+                         'long': 'one line that fills the file (sizes <= %d, default blocksize only)'
+                                 % LARGE_LONG_LINE_MAX},
+            'blocksizes': 'default, 65537, file size + 1', 'modes': list(REV_MODES),
+            'preseek': [True, 'False with the cursor at the end'], 'exhaustive_in_size': False},
+        'jsonl-large-files': {
+            'sizes': big_jsonl_sizes(_ju, ctx.quick()), 'kinds': list(BIG_JSONL_KINDS), 'ignore_errors': [True, False],
+            'lines': 'numbered records (2-byte character and raw U+2028 in a string), every 7th blank, every 13th '
+                     'corrupt, eol CRLF (every fifth) or LF',
+            'directions': 'forward; reverse with block 4096 (native) and file size + 1', 'exhaustive_in_size': False},
         'reverse_iter_lines-encodings': {
             'encodings': list(ENCODINGS), 'tokens': {e: list(v) for e, v in ENC_TOKENS.items()},
             'max_tokens': b['enc_maxtok'], 'blocksizes': 'every 1..len(bytes)+1 and the default 4096',
@@ -1364,6 +1601,7 @@ def run(ctx):
         'reverse_iter_lines-multibyte': {
             'characters': 'lowest and highest code point of every UTF-8 lead byte 0xC2..0xF4 (%d characters)'
                           % sum(len(_lead_extremes(b)) for b in MB_LEADS),
+            'also': 'the characters %r (line breaks for str.splitlines, not for this function)' % (REV_LOOKALIKES,),
             'templates (X = the character)': list(MB_TEMPLATES),
             'blocksizes, modes, preseek': 'as for reverse_iter_lines'},
         'jsonl-long-gaps': {'layout': 'gap obj gap obj gap, eol \\n, trailing eol', 'gap_kinds': [k[0] for k in GAP_KINDS],
@@ -1414,12 +1652,14 @@ def replay(ctx, data):
         bad = check_indent(strutils, case['text'], INDENT_SETTINGS[case['setting']])
         if bad:
             msgs.append('%s text=%r expected=%r observed=%r' % (bad[0], case['text'], bad[1], bad[2]))
-    elif part in ('reverse_iter_lines', 'reverse_iter_lines-block-edges'):
+    elif part in ('reverse_iter_lines', 'reverse_iter_lines-block-edges', 'reverse_iter_lines-large-files'):
         scratch = core.scratch_dir('c19-replay')
         try:
             content = case['content']
             if part == 'reverse_iter_lines-block-edges':
                 content = edge_content(case['pattern'], case['shift'], case['block'])
+            elif part == 'reverse_iter_lines-large-files':
+                content = large_content(case['nbytes'], case['variant'])
             path = os.path.join(scratch, 'rev.dat')
             databytes = content.encode('utf-8')
             with open(path, 'wb') as f:
@@ -1427,7 +1667,14 @@ def replay(ctx, data):
             textmode = case['mode'] in TEXT_MODES
             accept = rev_expected(content, textmode)
             obs = call_reverse(jsonutils, case['mode'], databytes, path, case['blocksize'], case['preseek'])
-            if part == 'reverse_iter_lines-block-edges':
+            if part == 'reverse_iter_lines-large-files':
+                if not (obs[0] == 'ok' and obs[1] in accept):
+                    msgs.append('C19|fn:reverse_iter_lines|%s content=large_content(%d, %r) mode=%s blocksize=%r '
+                                'preseek=%r observed %s'
+                                % (classify_rev(content, textmode, obs, accept), case['nbytes'], case['variant'],
+                                   case['mode'], case['blocksize'], case['preseek'],
+                                   '%d items instead of %d' % (len(obs[1]), len(accept[0])) if obs[0] == 'ok' else obs))
+            elif part == 'reverse_iter_lines-block-edges':
                 if not (obs[0] == 'ok' and obs[1] in accept):
                     msgs.append('C19|fn:reverse_iter_lines|%s content=%r*n+%r (%d bytes) mode=%s blocksize=%r '
                                 'preseek=%r observed %s'
@@ -1495,6 +1742,20 @@ def replay(ctx, data):
                             'observed=%r' % (sig, case['line'], list(FORM_LAYOUTS[case['layout']]), case['eol'],
                                              case['kind'], case['ignore_errors'], case['blocksize'],
                                              case['protocol'], jsonl_short(exp), jsonl_short(list(obs))))
+        finally:
+            shutil.rmtree(scratch, ignore_errors=True)
+    elif part == 'jsonl-large-files':
+        scratch = core.scratch_dir('c19-replay')
+        try:
+            path = os.path.join(scratch, 'big.dat')
+            lines, databytes = big_jsonl_file(case['nbytes'])
+            with open(path, 'wb') as f:
+                f.write(databytes)
+            sig, exp, obs = run_big_jsonl_case(jsonutils, case, lines, databytes, path)
+            if sig:
+                msgs.append('%s file=big_jsonl_file(%d) kind=%s ignore_errors=%r blocksize=%r expected=%r observed=%r'
+                            % (sig, case['nbytes'], case['kind'], case['ignore_errors'], case['blocksize'],
+                               big_short(exp), [obs[0]] + [big_short(x) for x in obs[1:]]))
         finally:
             shutil.rmtree(scratch, ignore_errors=True)
     elif part == 'jsonl-long-gaps':
